@@ -65,9 +65,50 @@ func rulePrevoteToken() *Rule {
 					incPos = p.InstrPos(in)
 				}
 			})
+			// ---- without any token: the design may be one in which a node that is Candidate when the election loop
+			// wakes never raises its term there (it asks for prevotes again, and the real election is started where the
+			// prevote is won). Decide that first: it needs no token.
+			{
+				stateAtom := p.StateAtom()
+				sp := NewSpace(stateAtom, BoolAtom("singleVoterCluster", "r.isSingleServerCluster()"), GhostAtom("candidateAtWakeUp", "no", "yes", "unknown"))
+				C := enumIdx(stateAtom, "Candidate")
+				a := NewAnalysis(p, sp)
+				a.Hook = func(a *Analysis, f *Frame, in ssa.Instruction, st State) State {
+					if s, fld := storeField(in); s != nil && fld == curTerm && incrementOf(p, f, s.Val, "r.currentTerm") == 1 {
+						a.Observe("inc "+chainKey(f), f, in, st)
+					}
+					return st
+				}
+				a.Post = func(a *Analysis, f *Frame, in ssa.Instruction, st State) State {
+					if f.Parent == nil {
+						if op, _ := isMutexOp(callCommonOf(in)); op == "Cond.Wait" || op == "Mutex.Lock" {
+							// the role is whatever it is when the loop gets the mutex back
+							st = a.KillShared(st)
+							return sp.Map(st, 2, func(pt, _ int) uint32 {
+								if sp.Val(pt, 0) == C {
+									return 1 << 1
+								}
+								return 1 << 0
+							})
+						}
+					}
+					return st
+				}
+				a.RunFrame(NewRootFrame(loop), sp.Assign(sp.Top(), 2, 2))
+				free := len(a.Obs) > 0
+				for _, o := range a.SortedObs() {
+					if !sp.Where(o.State, func(pt int) bool { return sp.Val(pt, 2) != 0 && sp.Val(pt, 1) != 1 }).IsEmpty() {
+						free = false
+					}
+				}
+				if free {
+					return []Obligation{{Rule: id, Construct: "SPEND increments of currentTerm reachable from (*Raft).electionLoop", Pos: incPos, Verdict: Discharged,
+						Detail: "a node that is Candidate when the election loop wakes never raises its term in that critical section (except as the single voter): a timed-out candidate cannot climb"}}
+				}
+			}
 			if len(cands) == 0 {
 				return []Obligation{{Rule: id, Construct: "TOKEN a prevote-won token exists (a boolean field of Raft set in (*Raft).sendRequestVote)", Pos: incPos, Verdict: Violated,
-					Detail: "nothing records that a prevote was won for the coming attempt: the election loop can only go by the Candidate role, which a candidate whose election timed out still has, " +
+					Detail: "a node that is Candidate when the election loop wakes raises its term there, and nothing records that a prevote was won for the coming attempt: the Candidate role is all the loop can go by, and a candidate whose election timed out still has it, " +
 						"so a candidate that is cut off increments its term on every election timeout without asking anybody and deposes the leader when it rejoins (prevote is bypassed)"}}
 			}
 			var names []*types.Var
